@@ -272,7 +272,9 @@ def k_read(sim, sock, n, timeout=None, what='read'):
 
 
 def k_write(sim, sock, data, what='write'):
-    """blocking write of all of data, progressing in segments; returns len(data)"""
+    """blocking write of all of data; returns len(data).  Like send(2) on a blocking stream socket, errors are
+    checked when the call starts and whenever it has to wait for buffer space - not between the bytes of one
+    accepted chunk.  Segmentation only affects how the accepted bytes become visible to the reader."""
     t = sim.me()
     sim.yield_(what)
     tx = sock.tx
@@ -281,31 +283,34 @@ def k_write(sim, sock, data, what='write'):
     off = 0
     tcp = sock.family == 'tcp'
     seg = sim.knobs.get('segmentation', 0.0) if tcp else 0.0
+    check = True
     while True:
-        if sock.state != 'connected':
-            if sock.state == 'closed':
-                raise OSError(errno.EBADF, 'Bad file descriptor')
-            raise BrokenPipeError(EPIPE, 'Broken pipe')
-        if sock.shut_wr:
-            raise BrokenPipeError(EPIPE, 'Broken pipe')
-        if tcp and sock.err is not None:
-            e = sock.err
-            sock.err = None
-            sim.ev('write-err', t.name, sock.label, e)
-            raise _oserr(e)
-        if sock.dead:
-            sim.ev('write-epipe', t.name, sock.label)
-            raise BrokenPipeError(EPIPE, 'Broken pipe')
-        if sock.peer.state == 'closed':
-            if tcp:
-                # the segment is accepted and answered with RST
-                sim.ev('write-to-closed', t.name, sock.label, total - off)
-                if not sock.rst_pending:
-                    sock.rst_pending = True
-                    _send_rst(sim, sock.peer)
-                return total
-            sim.ev('write-epipe', t.name, sock.label)
-            raise BrokenPipeError(EPIPE, 'Broken pipe')
+        if check:
+            check = False
+            if sock.state != 'connected':
+                if sock.state == 'closed':
+                    raise OSError(errno.EBADF, 'Bad file descriptor')
+                raise BrokenPipeError(EPIPE, 'Broken pipe')
+            if sock.shut_wr:
+                raise BrokenPipeError(EPIPE, 'Broken pipe')
+            if tcp and sock.err is not None:
+                e = sock.err
+                sock.err = None
+                sim.ev('write-err', t.name, sock.label, e)
+                raise _oserr(e)
+            if sock.dead:
+                sim.ev('write-epipe', t.name, sock.label)
+                raise BrokenPipeError(EPIPE, 'Broken pipe')
+            if sock.peer.state == 'closed':
+                if tcp:
+                    # the segment is accepted and answered with RST
+                    sim.ev('write-to-closed', t.name, sock.label, total - off)
+                    if not sock.rst_pending:
+                        sock.rst_pending = True
+                        _send_rst(sim, sock.peer)
+                    return total
+                sim.ev('write-epipe', t.name, sock.label)
+                raise BrokenPipeError(EPIPE, 'Broken pipe')
         if off >= total:
             sim.sys_return_point(t)
             return total
@@ -315,22 +320,25 @@ def k_write(sim, sock, data, what='write'):
             # before it completes (only a kill can cut a message short)
             sim.probe('write-blocked-full')
             sim.block(t, (tx.wq,), what=f'{what}-full:{sock.label}', deliver=False)
+            check = True
             continue
-        k = min(free, total - off)
-        if seg and k > 1 and sim.frng.random() < seg:
-            r = sim.frng.random()
-            if r < 0.4:
-                k = 1
-            elif r < 0.7:
-                k = sim.frng.randint(1, min(k, 8))
-            else:
-                k = sim.frng.randint(1, k)
-            sim.fault('segmentation')
-        _put(sim, tx, mv[off:off + k])
-        sim.ev('write', t.name, sock.label, k)
-        off += k
-        if off < total:
-            sim.yield_('write-seg', deliver=False)
+        end = off + min(free, total - off)
+        while off < end:
+            k = end - off
+            if seg and k > 1 and sim.frng.random() < seg:
+                r = sim.frng.random()
+                if r < 0.4:
+                    k = 1
+                elif r < 0.7:
+                    k = sim.frng.randint(1, min(k, 8))
+                else:
+                    k = sim.frng.randint(1, k)
+                sim.fault('segmentation')
+            _put(sim, tx, mv[off:off + k])
+            sim.ev('write', t.name, sock.label, k)
+            off += k
+            if off < total:
+                sim.yield_('write-seg', deliver=False)
 
 
 def k_shutdown(sim, sock, how):
